@@ -61,7 +61,8 @@ def jobs(tier):
         gaps += [(1, [0], 4), (2, [0, 1], 4), (3, [0, 1, 2], 3)]
     for d, per, n in gaps:
         jobs.append(Job(H + 'gap', dict(d=d, periodic=per, n=n),
-                        pkg_key='default', max_paths=6000))
+                        pkg_key='default',
+                        max_paths=40000 if thorough else 6000))
     # the shift as used by the nautilus bound: the points its ellipsoid
     # unions are built from have their largest gap across the boundary
     nbc = [dict(d=1, n=3, periodic=[0]), dict(d=2, n=3, periodic=[1]),
